@@ -278,6 +278,35 @@ func c18CheckHeightWriter(k *eng.Check, fn *ssa.Function) (c18Writer, bool) {
 			continue
 		}
 		p, why := c18MaxOverParam(fn, a)
+		if p == nil {
+			// the maximum may be computed by a same-package helper over the slice it is handed
+			if hc, isCall := eng.Strip(a).(*ssa.Call); isCall {
+				if h := hc.Call.StaticCallee(); h != nil && len(h.Blocks) > 0 && eng.FuncPkg(h) == eng.FuncPkg(fn) {
+					var q *ssa.Parameter
+					good, n := true, 0
+					for _, b := range h.Blocks {
+						for _, in := range b.Instrs {
+							if ret, isRet := in.(*ssa.Return); isRet && len(ret.Results) == 1 {
+								n++
+								hp, _ := c18MaxOverParam(h, ret.Results[0])
+								if hp == nil || (q != nil && q != hp) {
+									good = false
+								}
+								q = hp
+							}
+						}
+					}
+					if good && n > 0 && q != nil {
+						if qi := c18uParamIndex(q); qi >= 0 && qi < len(hc.Call.Args) {
+							if fp, isP := eng.Origin(hc.Call.Args[qi]).(*ssa.Parameter); isP {
+								p, why = fp, ""
+								k.FuncsSeen[h] = true
+							}
+						}
+					}
+				}
+			}
+		}
 		if !k.Require("height-written", name+"#max-of-parents", "the value incremented is the maximum, from 0, over every element of a []uint64 parameter", p != nil, pos, why) {
 			allOK = false
 			continue
